@@ -7,7 +7,7 @@ CONSTANTS Mod, Sel      \* configuration sampling: keep configurations with Hash
 
 EpSeq   == <<"sign", "getkey", "listkeys">>
 NameSeq == <<"ka", "kb", "kc", "unknown">>
-PeerSeq == <<"untrusted", "trusted", "neighbour">>
+PeerSeq == <<"untrusted", "trusted", "neighbour", "trusted6", "neighbour6">>
 XffSeq  == <<"none", "one">>
 TlsSeq  == <<"fp", "ca", "canoeku", "unk", "none", "casamekey", "caexpired">>
 HdrSeq  == <<"fp", "ca", "canoeku", "unk", "none", "bad", "casamekey", "caexpired">>
@@ -19,14 +19,14 @@ ReqAt(i) ==   \* i in 0..NReq-1, hdr fastest
   LET h == i % 8            i1 == i \div 8
       t == i1 % 7           i2 == i1 \div 7
       x == i2 % 2           i3 == i2 \div 2
-      p == i3 % 3           i4 == i3 \div 3
+      p == i3 % 5           i4 == i3 \div 5
       n == i4 % 4           e == i4 \div 4
   IN [ep |-> EpSeq[e + 1], name |-> NameSeq[n + 1], peer |-> PeerSeq[p + 1], xff |-> XffSeq[x + 1],
       tls |-> TlsSeq[t + 1], hdr |-> HdrSeq[h + 1]]
 
 Mask(S) == (IF "ka" \in S THEN 1 ELSE 0) + (IF "kb" \in S THEN 2 ELSE 0) + (IF "kc" \in S THEN 4 ELSE 0)
 Code(r) == PStatus(r) * 10000 + (IF PTouched(r) THEN 1000 ELSE 0) + Mask(PListing(r)) * 10
-           + (IF PAddr(r) = "client" THEN 2 ELSE IF PAddr(r) = "trusted" THEN 1 ELSE IF PAddr(r) = "neighbour" THEN 3 ELSE 0)
+           + (IF PAddr(r) = "client" THEN 2 ELSE IF PAddr(r) = "trusted" THEN 1 ELSE IF PAddr(r) = "neighbour" THEN 3 ELSE IF PAddr(r) = "trusted6" THEN 4 ELSE IF PAddr(r) = "neighbour6" THEN 5 ELSE 0)
 
 ShapeHash(k) == (IF k.kind = "real" THEN 1 ELSE IF k.kind = "alias" THEN 2 ELSE 3) + (IF k.hide THEN 5 ELSE 0)
                 + 7 * Cardinality(k.roles) + (IF "r2" \in k.roles THEN 3 ELSE 0)
